@@ -143,7 +143,7 @@ class Watcher:
 
 @st.composite
 def fit_case(draw):
-    s = draw(E.est_spec(classes=E.SPARSE, n_max=12, d_max=5, iter_max=6, k_max=3, hidden_max=3, lr=(0.5, 0.1, 0.01), d_min=2, n_min=4))
+    s = draw(E.est_spec(classes=E.SPARSE, n_max=12, d_max=7, iter_max=6, k_max=3, hidden_max=3, lr=(0.5, 0.1, 0.01), d_min=2, n_min=4))
     s["alpha"] = draw(st.sampled_from([0.3, 1.0, 0.1, 3.0, 0.6, 10.0, 0.0, 0.01]))
     return {"spec": s}
 
@@ -171,7 +171,7 @@ def oracle_fit(case):
 
 @st.composite
 def path_case(draw):
-    s = draw(E.est_spec(classes=E.SPARSE, n_max=12, d_max=5, iter_max=3, k_max=3, hidden_max=3, lr=(0.1, 0.5, 0.01), d_min=2, n_min=4))
+    s = draw(E.est_spec(classes=E.SPARSE, n_max=12, d_max=7, iter_max=3, k_max=3, hidden_max=3, lr=(0.1, 0.5, 0.01), d_min=2, n_min=4))
     s["alpha"] = draw(st.sampled_from([0.5, 0.05, 2.0]))
     return {"spec": s, "path": {"alpha_multiplier": draw(st.sampled_from([1.5, 3.0, 1.1])), "min_features": draw(st.integers(1, 3)),
                                 "max_patience": draw(st.integers(1, 3)), "restore_best_weights": draw(st.booleans()),
